@@ -122,6 +122,10 @@ bool Module::initialize(const Json &js_parent)
     for (const auto &item : children_) {
         if (!item.module_ptr->initialize(js_this) && item.required) {
             LogErr("required module `%s' initialize() fail", item.module_ptr->name().c_str());
+            //! 回滚：逆序清理已初始化的子模块，再清理自己
+            for (auto iter = children_.rbegin(); iter != children_.rend(); ++iter)
+                iter->module_ptr->cleanup();
+            onCleanup();
             return false;
         }
     }
@@ -145,6 +149,10 @@ bool Module::start()
     for (const auto &item : children_) {
         if (!item.module_ptr->start() && item.required) {
             LogErr("required module `%s' start() fail", item.module_ptr->name().c_str());
+            //! 回滚：逆序停止已启动的子模块，再停止自己
+            for (auto iter = children_.rbegin(); iter != children_.rend(); ++iter)
+                iter->module_ptr->stop();
+            onStop();
             return false;
         }
     }
